@@ -10,7 +10,7 @@ RULE = ("M1: TLC enumerates every string of length <= MaxS over alphabet+ignore+
         "position-coded tensors; all replayed. M2: random ASCII alphabets of size 1-8, strings to 50, chunk sizes to 40, eight dtypes. "
         "distinct_nontrivial = M1 cases with overlap>0, with ignored/foreign characters, with N columns, or RC of length>1.")
 EXHAUSTIVE = True
-KEYS = ("op", "str", "alphabet", "ignore", "x", "comp", "xs", "size", "ov")
+KEYS = ("op", "str", "alphabet", "ignore", "x", "comp", "xs", "size", "ov", "longlen")
 
 
 def run(ctx):
@@ -32,7 +32,8 @@ def run(ctx):
                 y[0] += 1
                 out.append(c)
         return out
-    std.m2(ctx, "c15", "Codec_Trace", "Codec_Trace.cfg", 4000 if ctx.quick else 100000, negs, evkeys=KEYS)
+    std.m2(ctx, "c15", "Codec_Trace", "Codec_Trace.cfg", 4000 if ctx.quick else 100000, negs, evkeys=KEYS,
+           extra_case=dict(long=1 if ctx.quick else 3))
     extras(ctx)
     ctx.assumptions += ["chunk/unchunk are observed on position-coded tensors (value = sequence id*100 + position)",
                         "complement maps are involutions; ASCII alphabets exclude 'N' (reserved for all-zero columns)"]
